@@ -2,6 +2,7 @@
 
 import re
 
+import numpy as np
 from hypothesis import strategies as st
 
 from .. import e2e, ffmodel, strat, topo
@@ -182,6 +183,13 @@ def check_na(case):
                 if nn not in have and not (i == 0 and nn in ("P", "O1P", "O2P")):
                     res.bad("C03:na:lost-heavy", f"{exp['name']} (nucleotide {i} of {''.join(meta['seq'])}): input atom {name} is "
                             f"not in the final model")  # fmt: skip
+                elif nn in have:
+                    # nucleotides are never moved: the atom of that name must BE the input atom (a rebuilt
+                    # stand-in at template coordinates means the input atom was lost and one invented)
+                    a = entry["atoms"].get(name) or entry["atoms"].get({"O1P": "OP1", "O2P": "OP2"}.get(name, name))
+                    if a is not None and float(np.linalg.norm(np.array(a.coords) - A.inp[g][name])) > 2e-3:
+                        res.bad("C03:na:replaced-heavy", f"{exp['name']} (nucleotide {i} of {''.join(meta['seq'])}): the model's {name} is "
+                                f"{float(np.linalg.norm(np.array(a.coords) - A.inp[g][name])):.2f} A from the input atom (lost and re-invented)")  # fmt: skip
             full = not any(id(a) in A.missing_ids for a in entry["atoms"].values())
             if full and have != exp["atoms"]:
                 res.bad("C03:na:atomset", f"{ff} {exp['name']}: lacks {sorted(exp['atoms'] - have)}, extra {sorted(have - exp['atoms'])} "
